@@ -12,6 +12,7 @@ def check(ctx):
                               ('FatTree', 'generate_flows'), ('FatTree', 'generate_fib')])
     elements.copy_aliasing(ctx, 'C18')
     elements.ack_offset_constant(ctx, 'C18')
+    elements.element_id_defined(ctx, 'C18')
     elements.class_method_sets(ctx, 'C18', only=('FlowDemux', 'RandomDemux', 'FIBDemux', 'SimplePacketSwitch',
                                                    'FairPacketSwitch', 'Hub', 'Splitter', 'NSplitter', 'FatTree', 'Packet'))
     return ('Static: FlowDemux.put (0 <= f < len(outs) else default else nowhere), FIBDemux.put (end device, table, '
